@@ -20,6 +20,8 @@ pub struct Model {
     pub rules: Vec<(String, i64, String)>,
     /// key / node id of the timed task's node kind
     pub timed_is_step: bool,
+    /// the timed step has a catch-all whose steps hold an interrupt: failing the act leaves the step open
+    pub catches: bool,
 }
 
 fn rule_ms(r: &str) -> i64 {
@@ -56,8 +58,28 @@ pub fn models() -> Vec<Model> {
                 yml,
                 rules,
                 timed_is_step,
+                catches: false,
             });
         }
+    }
+    // a timed step with a catch: the client fails the act, the catch revives the step, which stays
+    // open on the interrupt of its catch steps while the rules keep counting from its opening
+    for set in [vec!["1s"], vec!["2s"], vec!["1s", "2s"], vec!["1s", "1m"]] {
+        let mut rules = vec![];
+        let mut rule_yml = String::from("    timeout:\n");
+        for r in &set {
+            let sid = format!("t{}", r);
+            rule_yml += &format!("      - on: {r}\n        steps:\n          - id: {sid}\n            acts:\n              - uses: acts.core.msg\n                key: fired-{r}\n");
+            rules.push((r.to_string(), rule_ms(r), sid));
+        }
+        let yml = format!("id: m19\nsteps:\n  - id: s1\n{rule_yml}    catches:\n      - steps:\n          - id: cfix\n            acts:\n              - uses: acts.core.irq\n                key: fix\n    acts:\n      - uses: acts.core.irq\n        key: a1\n  - id: s2\n    acts:\n      - uses: acts.core.irq\n        key: a2\n");
+        v.push(Model {
+            id: format!("step-with-catch/{}", set.join("+")),
+            yml,
+            rules,
+            timed_is_step: true,
+            catches: true,
+        });
     }
     // a timed step around a timed act: the same rule text on both, and different texts
     for (rs, ra) in [("1s", "1s"), ("1s", "2s"), ("2s", "1s")] {
@@ -69,6 +91,7 @@ pub fn models() -> Vec<Model> {
             yml,
             rules: vec![(format!("step:{rs}"), rule_ms(rs), format!("ts{rs}")), (format!("act:{ra}"), rule_ms(ra), format!("ta{ra}"))],
             timed_is_step: false,
+            catches: false,
         });
     }
     v
@@ -82,6 +105,8 @@ struct Ref {
     /// how the timed act was closed: part of the state, the implementation may treat the
     /// terminal states differently
     closed_by: &'static str,
+    /// the interrupt a1 has been answered (the timed step can still be open: caught error)
+    answered: bool,
 }
 
 const ADV: [i64; 4] = [300, 800, 1_100, 61_000];
@@ -107,7 +132,8 @@ fn apply(im: &mut Impl, op: &Op) {
         Op::Tick => im.sess.tick(),
         Op::Answer(kind) => {
             let a1 = im.a1.clone();
-            let _ = im.sess.act(kind, "p1", &a1, &acts::Vars::new());
+            let opts = if *kind == "error" { json!({"ecode": "e1", "message": "failed"}) } else { json!({}) };
+            let _ = im.sess.act(kind, "p1", &a1, &crate::checks::common::vars_of(&opts));
         }
     }
     im.sess.drain();
@@ -146,6 +172,7 @@ fn explore(m: &Model, depth: usize, out: &mut ItemOut) {
         fired: BTreeSet::new(),
         open: true,
         closed_by: "",
+        answered: false,
     };
     let mut seen: BTreeSet<Ref> = BTreeSet::new();
     seen.insert(init.clone());
@@ -163,9 +190,12 @@ fn explore(m: &Model, depth: usize, out: &mut ItemOut) {
                 ops.push(Op::Adv(a));
             }
         }
-        if s.open {
+        if s.open && !s.answered {
             for k in ["complete", "submit", "skip"] {
                 ops.push(Op::Answer(k));
+            }
+            if m.catches {
+                ops.push(Op::Answer("error"));
             }
         }
         for op in ops {
@@ -175,6 +205,7 @@ fn explore(m: &Model, depth: usize, out: &mut ItemOut) {
                 fired: BTreeSet::new(),
                 open: true,
                 closed_by: "",
+                answered: false,
             };
             let mut full = path.clone();
             full.push(op.clone());
@@ -189,8 +220,14 @@ fn explore(m: &Model, depth: usize, out: &mut ItemOut) {
                 match o {
                     Op::Adv(ms) => nxt.elapsed += ms,
                     Op::Answer(k) => {
-                        nxt.open = false;
-                        nxt.closed_by = k;
+                        nxt.answered = true;
+                        if *k == "error" && m.catches {
+                            // the catch of the timed step takes the error: the step stays open
+                            nxt.closed_by = "error-caught";
+                        } else {
+                            nxt.open = false;
+                            nxt.closed_by = k;
+                        }
                     }
                     Op::Tick => {
                         if cur.open {
@@ -237,6 +274,9 @@ fn explore(m: &Model, depth: usize, out: &mut ItemOut) {
                         }
                     }
                     // firing does not close the timed task
+                    if nxt.open && matches!(o, Op::Answer("error")) && state != "running" {
+                        viols.entry("caught-error-closed-the-timed-step".into()).or_insert((format!("after {full:?}: the timed step is {state} although its catch took the error"), full.clone()));
+                    }
                     if cur.open && !matches!(o, Op::Answer(_)) && crate::amode::is_terminal_state(&state) {
                         viols.entry("closed-by-timeout".into()).or_insert((format!("after {full:?}: the timed task is {state} although it was not answered"), full.clone()));
                     }
@@ -286,7 +326,7 @@ impl Check for C19 {
         CheckInfo {
             id: "C19",
             level: "model_checking",
-            rule: "a timed interrupt act, a timed step around it, or both (same and different rule texts), with every rule set from {1s}, {2s}, {1m}, {1s,2s}, {2s,1s}, {1s,1m}, {1s,2s,1m}; reference state = (elapsed ms, rules fired, task open); breadth-first over every state reachable within the depth with the alphabet {advance 300 | 800 | 1100 | 61000 ms, tick, answer with complete | submit | skip}; every edge replayed on a fresh real engine under a virtual clock; the instances of each rule's step created by the edge must equal the prediction (fires at the first tick with elapsed >= limit while open, once, never after the task ended, never without a tick) and the timed task must stay open".into(),
+            rule: "a timed interrupt act, a timed step around it, both (same and different rule texts), or a timed step with a catch whose steps keep it open after the client failed its act, with every rule set from {1s}, {2s}, {1m}, {1s,2s}, {2s,1s}, {1s,1m}, {1s,2s,1m}; reference state = (elapsed ms, rules fired, task open); breadth-first over every state reachable within the depth with the alphabet {advance 300 | 800 | 1100 | 61000 ms, tick, answer with complete | submit | skip (| error where the step catches)}; every edge replayed on a fresh real engine under a virtual clock; the instances of each rule's step created by the edge must equal the prediction (fires at the first tick with elapsed >= limit while open, once, never after the task ended, never without a tick) and the timed task must stay open".into(),
             assumptions: vec![
                 "virtual clock (hook); ticks are the explicit operation the timer issues; an elapsed time within 2 ms of a limit is not judged".into(),
             ],
